@@ -225,10 +225,17 @@ Qed.
 Print Assumptions C19_backend_rejection.
 
 (* ------------------------------------------------------------------------------------------------
-   6. The look-up rule of the CURRENT source (key_asis): translate_c_to_cirq renames a multi-controlled
-      CNOT to CX on a copy and looks the COPY's name up in the noise model.  The faithful model refutes
-      the property's "after every occurrence of each noisy gate" for such gates; outside them the
-      as-is rule and the intended rule (look up the gate's own name) coincide. *)
+   6. The look-up rule.  translate_c_to_cirq renames a multi-controlled CNOT to CX on a copy.  The CURRENT
+      source looks the noise up under the name the user gave the gate (saved before the renaming): with
+      the regenerated constants the look-up key of every gate is its own name, so theorems 1-4 read "after
+      every occurrence of each noisy gate".  The source BEFORE that repair looked the copy's name up
+      (key_asis); the faithful model of that rule refutes the property for multi-controlled CNOT gates
+      (kept as regression witnesses: the harness replays them on the real code on every run), and agrees
+      with the intended rule on every circuit without such a gate. *)
+Theorem C19_lookup_is_own_name : forall g : pgate Z, key_mode ntab lookup_renamed g = pname g.
+Proof. intro g. reflexivity. Qed.
+Print Assumptions C19_lookup_is_own_name.
+
 Definition key_asis : pgate Z -> string := key_of Z (Some ("CNOT", "CX", 1%nat)).
 Definition key_repaired : pgate Z -> string := key_of Z None.
 
